@@ -67,7 +67,9 @@ def check(ops, init, step, timeout=5.0, max_nodes=400000):
                 order.pop()
             continue
         nmask = mask | 1 << i
-        key = (nmask, new_state)
+        # repr, not the state itself: as tuple elements False, 0 and 0.0 (and True, 1, 1.0) are equal and hash alike,
+        # which would merge states that differ only in the type of a stored value
+        key = (nmask, repr(new_state))
         if key in seen:
             continue
         seen.add(key)
